@@ -18,6 +18,10 @@
       first and writes nothing, the already-terminal branch writes nothing; nobody else increments the tallies.
   R3  Python mirror: driver mark_job_complete returns before notifying when rc != 0 or the old state is already complete;
       complete_states equals the terminal set.
+  R4  lock continuity: in every routine that writes jobs.state or the completion tallies, a value read from the job / attempt /
+      batch rows with a locking read is used for a decision or a write only while the transaction that took the lock is still
+      open - no COMMIT / ROLLBACK / START TRANSACTION on any path between the locking read and the use (abstract walk of the
+      structured body, engines/sqltxn.py).  Otherwise two reports for one job can both pass the live-state test.
 Not decided: duplicate/reordered message histories as such; these are the obligations that make each message idempotent.
 """
 from __future__ import annotations
@@ -29,6 +33,7 @@ from engines import callsites as cs
 from engines import pyfacts as pf
 from engines import sqlfront as sf
 from engines import sqlrules as sr
+from engines import sqltxn
 from engines.common import AnalysisError, Ctx
 from engines.sqlast import N, text
 from engines.sqleval import UNKNOWN, may
@@ -699,13 +704,55 @@ def _branch_returns(t: pf.Node) -> bool:
     return True
 
 
+LOCK_SUBJECTS = {'jobs', 'attempts', 'batches', 'batch_updates', 'job_groups'}
+# columns that are written once when the row is inserted (the counter triggers state this assumption in their comments; C01 relies on it too)
+IMMUTABLE_COLUMNS = {'job_group_id', 'cores_mcpu', 'always_run', 'inst_coll', 'user', 'update_id', 'batch_id', 'job_id', 'format_version', 'start_job_id', 'start_job_group_id'}
+
+
+def r4(ctx: Ctx, prog: sf.SqlProgram) -> None:
+    n = 0
+    for name, r in sorted(prog.routines.items()):
+        a = r.ast
+        writes = {t.lower() for st in sf.all_statements(a.body) for t, _ in sf.written_tables(st)}
+        writes_state = any(st.kind == 'update' and 'jobs' in [t.lower() for t in sf.table_names(st.frm)] and state_sets(st) is not None for st in sf.all_statements(a.body))
+        if not (writes_state or TALLY_TBL in writes):
+            continue
+        stale, locked = sqltxn.stale_decisions(a)
+        subj = {}
+        for v, rd in locked.items():
+            if rd.frm is None or not (LOCK_SUBJECTS & {t.lower() for t in sf.table_names(rd.frm)}):
+                continue
+            i = [t.parts[0].lower() for t in rd.into if t.kind == 'col'].index(v)
+            col = rd.cols[i][0] if i < len(rd.cols) else None
+            if isinstance(col, N) and col.kind == 'col' and col.parts[-1].lower() in IMMUTABLE_COLUMNS:
+                continue  # a copy of a column nobody updates cannot go stale
+            subj[v] = rd
+        bad = [x for x in stale if x.var in subj]
+        for v, rd in sorted(subj.items()):
+            cons = f'sql::{name}::{v} is used inside the transaction that locked it'
+            mine = [x for x in bad if x.var == v]
+            n += 1
+            if not mine:
+                ctx.ok('R4', cons, {'locking_read': text(rd)[:90]})
+                continue
+            x = mine[0]
+            ctx.bad('R4', cons, f'{name} reads `{v}` with the locking read `{text(rd)[:80]}`, then ends that transaction (`{x.boundary.what}` at line {r.line_of(x.boundary)}) and afterwards '
+                    f'{"decides `" + text(x.stmt.branches[0][0])[:60] + "`" if x.how == "decision" else "uses it in `" + text(x.stmt)[:70] + "`"} on the value: the row lock is released at the '
+                    f'boundary, so a second call for the same job (a worker retry overlapping the first request, or the canceller racing the worker) that runs between the two transactions '
+                    f'reads the same live `{v}` and both calls take the live branch - the job is completed / counted twice', r.file, r.line_of(x.stmt),
+                    extra={'boundary': x.boundary.what, 'uses': len(mine)})
+    ctx.need(n > 0, 'R4: no routine writing jobs.state reads a row with a locking read (anchor vanished)')
+
+
 def run(ctx: Ctx) -> None:
     ctx.explanation = 'Every writer of jobs.state in the effective SQL program and in Python-embedded SQL is enumerated; the from/to sets induced by guards are checked against the lifecycle relation.'
     ctx.rule('R1', 'writers of jobs.state: from-set (guards on the state read FOR UPDATE / WHERE) x to-set within the lifecycle relation; initial states within {Pending, Ready}', 16)
     ctx.rule('R2', 'completion tallies incremented once: single branch, live-state guard on a FOR UPDATE read, with the state write; stale-attempt branch first; closed world', 10)
     ctx.rule('R3', 'driver mirror: no completion notification when rc != 0 or old state already complete; complete_states == terminal set', 5)
+    ctx.rule('R4', 'lock continuity: values read under a row lock are only used for decisions / writes while that transaction is open', 12)
     prog = sf.load_program()
     ctx.unit('effective_routines', len(prog.routines))
     r1(ctx, prog)
     r2(ctx, prog)
     r3(ctx)
+    r4(ctx, prog)
